@@ -20,6 +20,7 @@ import basefam as B
 import histfam as H
 import zoo
 import flow
+import c11
 
 
 # ------------------------------------------------------------------ histories with invalid batches
@@ -314,6 +315,10 @@ def main():
         if r:
             fails.append(r)
         r = first_call_width_oracle(rng)
+        if r:
+            fails.append(r)
+        # the compound prepare / restore pair with channels withheld (every order and spelling of the skipped channels)
+        r = c11.prepare_restore(rng)
         if r:
             fails.append(r)
     codes, bad = flow.coq_corr("C18", "RunBase", strs, shard=150)
